@@ -1,4 +1,5 @@
 import LanceModel.C03.BuiltLemmas
+import LanceModel.C03.ReservedRun
 import LanceModel.C03.Gen
 /-
 C03 — property theorems.
@@ -46,8 +47,8 @@ theorem inv_create (s : List Fld) (frs : List NewFrag) (m : Manifest)
     exact good_overwrite hb⟩
 
 /-- the invariant holds along every run of valid transactions -/
-theorem inv_reachable (h : Hist) (ts : List Txn) (hinv : Inv h) (hv : ValidRun h ts) : Inv (run h ts) :=
-  inv_run hinv hv
+theorem inv_reachable (h : Hist) (ts : List Txn) (hinv : Inv h) (hv : ValidRunR h ts) : Inv (run h ts) :=
+  inv_runR hinv hv
 
 /-- Lemma A for the rows `check_delete_txn` / `check_update_txn` of the matrix: if the check against every transaction
     committed since the read version passes, then on the latest version every fragment the transaction modifies still
@@ -96,9 +97,25 @@ theorem affected_rows_intact (h h' : Hist) (t : Txn) (upd : List Frag) (rem : Li
 
 /-- Lemma B + induction step: one committed transaction (any of the nine modelled kinds) is one step of the serial
     replay, on top of any reachable history (whatever mix of kinds committed before it) -/
-theorem commit_is_replay_step (h h' : Hist) (t : Txn) (hinv : Inv h) (hv : Valid h t)
+theorem commit_is_replay_step (h h' : Hist) (t : Txn) (hinv : Inv h) (hv : ValidR h t)
     (hc : commit h t = .ok h') : StepOk h h' t :=
-  (step_covered hinv hv hc).1
+  (step_reserved hinv hv hc).1
+
+/-- the reserve protocol, first half: the ids a ReserveFragments commit hands out (`[nextFrag' - n, nextFrag')`) are
+    non-zero, below the new counter and used by no fragment of the new version -/
+theorem reserve_hands_out_fresh_ids (cur m' : Manifest) (n : Nat) (hw : WfM cur)
+    (hb : buildManifest cur (.reserve n) = .ok m') (r : Nat) (h1 : m'.nextFrag - n ≤ r) (h2 : r < m'.nextFrag) :
+    FreshId r m' ∧ r ≠ 0 :=
+  reserve_gives_fresh hw hb r h1 h2
+
+/-- the reserve protocol, second half (`reserve_gives_fresh` as a property of reachable histories): the reserved ids
+    of a Rewrite whose check passes are non-zero, distinct, below the counter, not ids of fragments it replaces and
+    used by no fragment of the version it is committed on — every later writer allocates at or above the counter, an
+    Overwrite or Merge in between makes the check fail, and no other Rewrite took them -/
+theorem reserved_ids_fresh_at_commit (h h' : Hist) (t : Txn) (gs : List Group) (ri : List (Nat × Nat)) (hinv : Inv h)
+    (hop : t.op = .rewrite gs ri) (hv : ValidR h t) (hc : commit h t = .ok h') :
+    ∀ latest rest, h = latest :: rest → FreshNews latest.m gs :=
+  reserved_fresh hinv hop hv hc
 
 /-- C03, first half (`serial_replay`): for every reachable history, every list of transactions each built against
     some version of the history (at the time its turn to commit comes), in every commit order, the table after the
@@ -106,7 +123,7 @@ theorem commit_is_replay_step (h h' : Hist) (t : Txn) (hinv : Inv h) (hv : Valid
     All nine modelled kinds — Append, Delete, Update (RewriteRows), Overwrite, Rewrite, CreateIndex, ReserveFragments,
     Merge, Project — in any mix. -/
 theorem serial_replay (h : Hist) (hinv : Inv h) (latest : Ver) (rest : Hist) (hh : h = latest :: rest)
-    (ts : List Txn) (hv : ValidRun h ts) :
+    (ts : List Txn) (hv : ValidRunR h ts) :
     ∃ final older, run h ts = final :: older ∧ (abs final.m).Same (replay h ts (abs latest.m)) := by
   induction ts generalizing h latest rest with
   | nil => exact ⟨latest, rest, by simp [run, hh], same_refl _⟩
@@ -116,16 +133,16 @@ theorem serial_replay (h : Hist) (hinv : Inv h) (latest : Ver) (rest : Hist) (hh
     | error e =>
       have hs : step h t = h := by simp [step, hc]
       rw [hs]
-      have hv' : ValidRun h ts := by have := hv.2; rwa [hs] at this
+      have hv' : ValidRunR h ts := by have := hv.2; rwa [hs] at this
       obtain ⟨f, o, h1, h2⟩ := ih h hinv latest rest hh hv'
       exact ⟨f, o, h1, h2⟩
     | ok h' =>
       have hs : step h t = h' := by simp [step, hc]
       rw [hs]
-      obtain ⟨hstep, hinv'⟩ := step_covered hinv hv.1 hc
+      obtain ⟨hstep, hinv'⟩ := step_reserved hinv hv.1 hc
       obtain ⟨l, r, mRead, new, hl, hn, hm, hsame⟩ := hstep
       rw [hh] at hl; cases hl
-      have hv' : ValidRun h' ts := by have := hv.2; rwa [hs] at this
+      have hv' : ValidRunR h' ts := by have := hv.2; rwa [hs] at this
       obtain ⟨f, o, h1, h2⟩ := ih h' hinv' new h hn hv'
       refine ⟨f, o, h1, ?_⟩
       rw [hh] at hm
